@@ -351,6 +351,55 @@ def merge_operand_order(ctx, cr):
                sample={"site": k, "line": ln} if i == 0 else None)
 
 
+def every_file_loaded(ctx, cr):
+    """every file that a discovery loop of Validate::execute accepts (has_a_supported_extension) is loaded: from the accepting branch, every
+    path that comes back to the loop head passes through build_data_file (paths that leave the loop are error returns).  A `continue`
+    squeezed in between — a de-duplication by base name, a size check — silently drops a parameter or data file."""
+    from rules.c05 import loop_blocks
+    rule = "R-C17-every-file-loaded"
+    EX = "<commands::validate::Validate as commands::Executable>::execute"
+    f = cr.fns.get(EX)
+    if not f:
+        ctx.lost(rule, rule + ":execute", EX)
+        return
+    succ = [M.successors(b["term"]) for b in f["blocks"]]
+    nexts = [bi for bi, t in M.iter_calls(f) if M.norm_path(t["fn"].get("decl", "")) == "std::iter::Iterator::next"]
+    loaders = set(bi for bi, t in M.iter_calls(f) if M.norm_path(t["fn"].get("path", "")).endswith("validate::build_data_file"))
+    n = 0
+    for bi, t in M.iter_calls(f):
+        if not M.norm_path(t["fn"].get("path", "")).endswith("has_a_supported_extension"):
+            continue
+        loops = [(len(loop_blocks(f, h)), h) for h in nexts if bi in loop_blocks(f, h)]
+        if not loops:
+            continue
+        header = min(loops)[1]
+        body = loop_blocks(f, header)
+        sw = f["blocks"][t["to"]]["term"] if t.get("to") is not None else None
+        if not sw or sw["t"] != "switch":
+            ctx.lost(rule, "%s:l.%s" % (rule, t.get("ln")), "branch on has_a_supported_extension")
+            continue
+        false_to = [to for v, to in sw["cases"] if v == 0]
+        true_to = sw["else"]
+        # can the loop head be reached again from the accepting branch without passing a loader block?
+        seen, st = set(), [true_to]
+        escaped = False
+        while st:
+            b = st.pop()
+            if b in seen or b in loaders or b not in body:
+                continue
+            seen.add(b)
+            if b == header:
+                escaped = True
+                break
+            st.extend(succ[b])
+        n += 1
+        ctx.ob(rule, "%s:discovery-loop#%d" % (rule, n - 1), not escaped,
+               "an accepted file can reach the next iteration without build_data_file (a `continue` / skipped branch after the extension test, l.%s): that file is silently not loaded" % t.get("ln") if escaped
+               else "every accepted file is loaded before the next iteration", fn=f, line=t.get("ln", 0))
+    if n < 2:
+        ctx.lost(rule, rule + ":floor", "discovery loops with an extension test: %d (floor 2: data files, parameter files)" % n)
+
+
 def run(ctx):
     merge_table(ctx, ctx.lib)
     errors_propagate(ctx, ctx.lib)
@@ -358,4 +407,5 @@ def run(ctx):
     params_loop_invariant(ctx, ctx.lib)
     file_discovery_agreement(ctx, ctx.lib)
     merge_operand_order(ctx, ctx.lib)
+    every_file_loaded(ctx, ctx.lib)
     ctx.assumptions += ["IndexMap::contains_key / insert behave as documented (dependency)"]
